@@ -147,7 +147,14 @@ func init() {
 			{Name: "motifs", TShards: 4, Run: c17Motifs},
 			{Name: "fromjaccard", Run: c17FromJaccard},
 			{Name: "variants", TShards: 4, Run: c17Variants},
+			{Name: "longk", Run: c17LongK},
 			{Name: "srcviews", Run: srcViewUnit(viewCallsC17)},
+			{Name: "casemasks", Run: caseMaskUnit("ACGTN", 48, 140, func(k *K, v []byte) {
+				kk := 1 + len(v)/4
+				if got, want := mash.Sequences(20, kk, v).View(), mash.Sequences(20, kk, bytes.ToUpper(v)).View(); !sameU64(got, want) {
+					k.Failf("sketch-variant", "Sequences(20,%d) of a soft-masked sequence differs from the sketch of its upper-case form: %v vs %v", kk, got, want)
+				}
+			})},
 		},
 	})
 }
@@ -789,6 +796,46 @@ func c17Variants(c *Ctx) {
 				k.Evals(2)
 			}
 			k.Nontrivial(base, []byte{byte(kk), byte(size)})
+		})
+	}
+}
+
+// c17LongK: k as long as, and longer than, a LONG sequence (2^18 … 2^20 bases:
+// where a sketching routine may switch to a bulk path sized from len(seq)-k+1).
+// A sequence shorter than k holds no k-mer and contributes nothing — whatever
+// its length; with k = len it holds one, with k = len-1 two.
+func c17LongK(c *Ctx) {
+	lens := []int{1<<18 - 1, 1<<18 + 5, 1<<20 + 3}
+	if c.Thorough {
+		lens = append(lens, 1<<16+1, 1<<17, 1<<19+9, 1<<22+1)
+	}
+	for i, l := range lens {
+		c.Case(int64(i), func(k *K) {
+			r := k.Rand()
+			h := &hashOracle{memo: map[string]uint64{}}
+			long := randSeq(r, []byte("ACGT"), l)
+			short := randSeq(r, []byte("ACGTacgt"), 40)
+			k.Input("long_sequence_length", l)
+			for _, kk := range []int{l + 2, l + 1, l, l - 1, 2 * l, l + 1<<20} {
+				for _, order := range [][][]byte{{short, long}, {long, short}, {long}} {
+					var got []uint64
+					if pv := catch(func() { got = append([]uint64{}, mash.Sequences(5, kk, cloneSeqs(order)...).View()...) }); pv != nil {
+						k.Input("k", kk)
+						k.Failf("panic", "Sequences(5, k=%d, ...) with a sequence of %d bases (k - len = %d) panicked: %v", kk, l, kk-l, pv)
+						return
+					}
+					want := refSketch(h, 5, kk, order)
+					if !sameU64(got, want) {
+						k.Input("k", kk)
+						k.Failf("sketch", "Sequences(5, k=%d, ...) with a sequence of %d bases = %v, want %v (the k-mers of length k that exist)", kk, l, got, want)
+						return
+					}
+					k.Count("sketches_checked", 1)
+					k.Count("long_k_sketches", 1)
+					k.Evals(1)
+				}
+			}
+			k.Nontrivial([]byte(fmt.Sprint("longk", l)))
 		})
 	}
 }
